@@ -116,6 +116,19 @@ def V.isNum : V → Bool
   | .int _ | .bool _ | .float _ => true
   | _ => false
 
+/-- `isinstance(v, bool)` -/
+def V.isBool : V → Bool
+  | .bool _ => true
+  | _ => false
+
+/-- `math.isfinite(v)`: numbers only (`TypeError` otherwise).  An int is converted to a float first; ints beyond the double
+    range (|n| ≥ 2^1024, an `OverflowError` in Python) are outside what this model distinguishes. -/
+def V.isFinite : V → Except ErrKind Bool
+  | .int _ | .bool _ => .ok true
+  | .float (.fin _) => .ok true
+  | .float _ => .ok false
+  | _ => .error .typeError
+
 def V.isStr : V → Bool
   | .str _ => true
   | _ => false
@@ -240,6 +253,12 @@ def idxOk (loOp : Cmp) (lo : Int) (hiOp : Cmp) (hi : V) (i : V) : Except ErrKind
   | Option.none => .ok false
   | some n => if loOp.int lo n then V.cmpNum hiOp i hi else .ok false
 
+/-- `isinstance(i, int) and not isinstance(i, bool) and lo <loOp> i <hiOp> hi` -/
+def idxOkStrict (loOp : Cmp) (lo : Int) (hiOp : Cmp) (hi : V) (i : V) : Except ErrKind Bool :=
+  match i with
+  | .int n => if loOp.int lo n then V.cmpNum hiOp i hi else .ok false
+  | _ => .ok false
+
 /-- `all(p(i) for i in l)` with Python's short circuit: stops at the first False, propagates the first exception -/
 def allM (p : V → Except ErrKind Bool) : List V → Except ErrKind Bool
   | [] => .ok true
@@ -252,6 +271,11 @@ def V.allIdx (v : V) (loOp : Cmp) (lo : Int) (hiOp : Cmp) (hi : V) : Except ErrK
   match v.iter? with
   | Option.none => .error .typeError
   | some l => allM (idxOk loOp lo hiOp hi) l
+
+def V.allIdxStrict (v : V) (loOp : Cmp) (lo : Int) (hiOp : Cmp) (hi : V) : Except ErrKind Bool :=
+  match v.iter? with
+  | Option.none => .error .typeError
+  | some l => allM (idxOkStrict loOp lo hiOp hi) l
 
 /-! ### the expression / statement language of the generated tables -/
 
@@ -269,6 +293,10 @@ inductive Expr where
   | allIdx (f : Field) (loOp : Cmp) (lo : Int) (hiOp : Cmp) (hi : Field)
                                        -- `all(isinstance(i, int) and lo <loOp> i <hiOp> self.hi for i in self.f)`
   | ltAdd (op : Cmp) (f g : Field) (k : Int)   -- `self.f <op> self.g + k`
+  | isBool (f : Field)                 -- `isinstance(self.f, bool)`
+  | isFinite (f : Field)               -- `math.isfinite(self.f)`
+  | allIdxStrict (f : Field) (loOp : Cmp) (lo : Int) (hiOp : Cmp) (hi : Field)
+                                       -- `all(isinstance(i, int) and not isinstance(i, bool) and lo <loOp> i <hiOp> self.hi for i in self.f)`
   | not (e : Expr)
   | and (a b : Expr)
   | or (a b : Expr)
@@ -289,6 +317,9 @@ def eval (c : Cfg) : Expr → Except ErrKind Bool
     match (c g).addInt k with
     | .error e => .error e
     | .ok r => (c f).cmpNum op r
+  | .isBool f => .ok (c f).isBool
+  | .isFinite f => (c f).isFinite
+  | .allIdxStrict f loOp lo hiOp hi => (c f).allIdxStrict loOp lo hiOp (c hi)
   | .not e =>
     match eval c e with
     | .error k => .error k
